@@ -83,11 +83,13 @@ func verifGatingBody(withHealthy bool) {
 		}
 		b := &vBehav{codes: []int{0}}
 		if depended {
-			switch verifChooseK("behaviour."+names[k], 3) {
+			switch verifChooseK("behaviour."+names[k], 4) {
 			case 1:
 				b.codes = []int{3}
 			case 2:
 				b.untilStop = []bool{true}
+			case 3:
+				b.codes = []int{-1} // ended by a signal from outside
 			}
 		}
 		if needHealthy && !needLine {
